@@ -168,6 +168,8 @@ def _evaluate_require(ast, file_path, package_lua, lua_path=None):
                 removed = [
                     s for s in reqd_lua.root.stats
                     if isinstance(s, parser.StatFunction) and
+                    len(s.funcname.namepath) == 1 and
+                    s.funcname.methodname is None and
                     s.funcname.namepath[0].value in GAME_LOOP_FUNCTION_NAMES]
                 if removed:
                     # Rebuild the code without the tokens of the removed
